@@ -79,7 +79,7 @@ Event(p, kind, cur, resSeq) ==
       out |-> [ code |-> o.code, died |-> "", eqprev |-> (o.data = prev /\ ~newData), decodes |-> TRUE, empty |-> FALSE,
                 ver |-> <<0, 64, 1, "">>, data |-> o.data, td |-> o.data.trace, digest |-> o.data,
                 next |-> o.next, next_dup |-> FALSE, reqs |-> o.reqs, reqs_ok |-> TRUE, reqsd |-> o.reqs, msgd |-> "",
-                flags |-> <<FALSE, FALSE, FALSE>>, store_ok |-> TRUE, refs_ok |-> TRUE, sig |-> <<>>, newver |-> newver ],
+                flags |-> <<FALSE, FALSE, FALSE>>, store_ok |-> TRUE, refs_ok |-> TRUE, sig |-> <<>>, newver |-> newver, c13 |-> o.c13 ],
       probes |-> [ idem |-> IF o.code = 0
                             THEN << Probe(p, o.data, curData), Probe(p, o.data, prev), Probe(p, o.data, o.data), Probe(p, o.data, EmptyData) >>
                             ELSE <<>>,
@@ -98,7 +98,7 @@ C16model(t, e) ==
 
 \* the property ids violated by step e taken from state s to state t (model-level reading of Props)
 Violations(s, t, e) ==
-    {id \in CheckIds \cap {"C02", "C04", "C05", "C06", "C07", "C09", "C10", "C11", "C12", "C16", "C19"} :
+    {id \in CheckIds \cap {"C02", "C04", "C05", "C06", "C07", "C09", "C10", "C11", "C12", "C13", "C16", "C19"} :
         ~(CASE id = "C02" -> C02(s, e)
             [] id = "C04" -> C04(s, e)
             [] id = "C05" -> C05(s, t, e) /\ C05answered(s, e)
@@ -108,6 +108,8 @@ Violations(s, t, e) ==
             [] id = "C10" -> C10(s, e)
             [] id = "C11" -> C11order(s, e)
             [] id = "C12" -> C12(s, e)
+            \* every stream fold that ended in this run visited every value of its stream (AirInterp!ExecFoldStream)
+            [] id = "C13" -> e.out.c13 = <<>>
             [] id = "C16" -> C16model(t, e)
             [] id = "C19" -> C19(s, e))}
 
